@@ -470,4 +470,200 @@ example : holds [0, 1, 2, 3, 3, 3] 3 (.ok [1]) = false := by decide
 example : holds [0, 1, 2, 3, 3, 3] 3 (.ok [3, 3]) = false := by decide
 example : holds [0, 1, 2, 3, 3, 3] 3 (.ok [3, 3, 3]) = true := by decide
 
+/-! ## key-generation retries enumerate distinct exclusions -/
+
+theorem mem_pairIdx {n : Nat} {p : Nat × Nat} : p ∈ pairIdx n ↔ p.1 < p.2 ∧ p.2 < n := by
+  obtain ⟨i, j⟩ := p
+  simp only [pairIdx, List.mem_flatMap, List.mem_range, List.mem_map, List.mem_filter,
+    decide_eq_true_eq, Prod.mk.injEq]
+  constructor
+  · rintro ⟨a, _, b, ⟨hb, hab⟩, rfl, rfl⟩; exact ⟨hab, hb⟩
+  · rintro ⟨h1, h2⟩; exact ⟨i, by omega, j, ⟨h2, h1⟩, rfl, rfl⟩
+
+theorem mem_tripIdx {n : Nat} {t : Nat × Nat × Nat} :
+    t ∈ tripIdx n ↔ t.1 < t.2.1 ∧ t.2.1 < t.2.2 ∧ t.2.2 < n := by
+  obtain ⟨i, j, l⟩ := t
+  simp only [tripIdx, List.mem_flatMap, List.mem_range]
+  constructor
+  · rintro ⟨a, _, b, _, h⟩
+    split at h
+    · simp only [List.mem_map, List.mem_filter, List.mem_range, decide_eq_true_eq, Prod.mk.injEq] at h
+      obtain ⟨c, ⟨hc, hbc⟩, rfl, rfl, rfl⟩ := h
+      exact ⟨by assumption, hbc, hc⟩
+    · cases h
+  · rintro ⟨h1, h2, h3⟩
+    refine ⟨i, by omega, j, by omega, ?_⟩
+    rw [if_pos h1]
+    exact List.mem_map.2 ⟨l, List.mem_filter.2 ⟨List.mem_range.2 h3, by simpa using h2⟩, rfl⟩
+
+theorem pairIdx_nodup (n : Nat) : (pairIdx n).Nodup := by
+  unfold pairIdx List.Nodup
+  rw [List.pairwise_flatMap]
+  constructor
+  · intro i _
+    rw [List.pairwise_map]
+    exact (List.nodup_range.filter _).imp (fun h he => h (Prod.mk.inj he).2)
+  · refine List.pairwise_lt_range.imp ?_
+    intro a b hab x hx y hy he
+    simp only [List.mem_map] at hx hy
+    obtain ⟨_, _, rfl⟩ := hx
+    obtain ⟨_, _, rfl⟩ := hy
+    have := (Prod.mk.inj he).1
+    omega
+
+theorem tripIdx_nodup (n : Nat) : (tripIdx n).Nodup := by
+  unfold tripIdx List.Nodup
+  rw [List.pairwise_flatMap]
+  constructor
+  · intro i _
+    rw [List.pairwise_flatMap]
+    constructor
+    · intro j _
+      split
+      · rw [List.pairwise_map]
+        exact (List.nodup_range.filter _).imp (fun h he => h (Prod.mk.inj (Prod.mk.inj he).2).2)
+      · exact List.Pairwise.nil
+    · refine List.pairwise_lt_range.imp ?_
+      intro a b hab x hx y hy he
+      split at hx
+      · split at hy
+        · simp only [List.mem_map] at hx hy
+          obtain ⟨_, _, rfl⟩ := hx
+          obtain ⟨_, _, rfl⟩ := hy
+          have := (Prod.mk.inj (Prod.mk.inj he).2).1
+          omega
+        · cases hy
+      · cases hx
+  · refine List.pairwise_lt_range.imp ?_
+    intro a b hab x hx y hy he
+    simp only [List.mem_flatMap] at hx hy
+    obtain ⟨j, _, hx⟩ := hx
+    obtain ⟨j', _, hy⟩ := hy
+    split at hx
+    · split at hy
+      · simp only [List.mem_map] at hx hy
+        obtain ⟨_, _, rfl⟩ := hx
+        obtain ⟨_, _, rfl⟩ := hy
+        have := (Prod.mk.inj he).1
+        omega
+      · cases hy
+    · cases hx
+
+theorem eligible_nodup (seats : List Addr) (k : Nat) : (eligible seats k).Nodup :=
+  (sortedOps_nodup seats).filter _
+
+/-- two different positions of a shuffled duplicate-free list hold different entries -/
+theorem shuffled_entries_distinct {α} {shuf : Nat → List Nat} (hv : ValidShuf shuf) {L : List α}
+    (hn : L.Nodup) {r1 r2 : Nat} (hr : r1 ≠ r2) {x1 x2 : α}
+    (h1 : (applyPerm (shuf L.length) L)[r1]? = some x1)
+    (h2 : (applyPerm (shuf L.length) L)[r2]? = some x2) : x1 ≠ x2 := by
+  intro he
+  subst he
+  have hnd : (applyPerm (shuf L.length) L).Nodup := (applyPerm_perm (hv _)).nodup_iff.2 hn
+  have hlt : r1 < (applyPerm (shuf L.length) L).length := by
+    rcases Nat.lt_or_ge r1 (applyPerm (shuf L.length) L).length with h | h
+    · exact h
+    · rw [List.getElem?_eq_none h] at h1; cases h1
+  exact hr ((List.getElem?_inj hlt hnd).1 (h1.trans h2.symm))
+
+/-- explicit shape of a successful selection, stage by stage -/
+theorem select_cases {asWas shuf seats retry k ex} (h : select asWas shuf seats retry k = .excl ex) :
+    (retry < (eligible seats k).length ∧
+      ∃ a, (applyPerm (shuf (eligible seats k).length) (eligible seats k))[retry]? = some a ∧ ex = [a])
+    ∨ ((eligible seats k).length ≤ retry ∧
+        retry - (eligible seats k).length < (eligiblePairs seats (eligible seats k) k).length ∧
+        ∃ p, (applyPerm (shuf (eligiblePairs seats (eligible seats k) k).length)
+                (eligiblePairs seats (eligible seats k) k))[retry - (eligible seats k).length]? = some p
+          ∧ ex = [opAt (eligible seats k) p.1, opAt (eligible seats k) p.2])
+    ∨ ((eligible seats k).length + (eligiblePairs seats (eligible seats k) k).length ≤ retry ∧
+        ∃ t, (applyPerm (shuf (eligibleTriplets asWas seats (eligible seats k) k).length)
+                (eligibleTriplets asWas seats (eligible seats k) k))[retry - (eligible seats k).length
+                  - (eligiblePairs seats (eligible seats k) k).length]? = some t
+          ∧ ex = [opAt (eligible seats k) t.1, opAt (eligible seats k) t.2.1, opAt (eligible seats k) t.2.2]) := by
+  unfold select at h
+  simp only [] at h
+  split at h
+  · split at h
+    · rename_i a ha
+      injection h with h; subst h; left; exact ⟨by assumption, a, ha, rfl⟩
+    · cases h
+  · split at h
+    · split at h
+      · rename_i p hp
+        injection h with h; subst h; right; left; exact ⟨by omega, by assumption, p, hp, rfl⟩
+      · cases h
+    · split at h
+      · split at h
+        · rename_i t ht
+          injection h with h; subst h; right; right
+          exact ⟨by omega, t, ht, rfl⟩
+        · cases h
+      · cases h
+
+/-- the operators a selection excludes are listed in strictly ascending order (so two exclusions
+    are the same *set* iff they are the same list) -/
+theorem select_excl_sorted {asWas shuf seats retry k ex} (h : select asWas shuf seats retry k = .excl ex) :
+    ex.Pairwise (· < ·) := by
+  have hsorted : (eligible seats k).Pairwise (· < ·) := (sortedOps_sorted seats).filter _
+  have key : ∀ {i j : Nat}, i < j → j < (eligible seats k).length →
+      opAt (eligible seats k) i < opAt (eligible seats k) j := by
+    intro i j hij hj
+    have := (List.pairwise_iff_getElem.1 hsorted) i j (by omega) hj hij
+    simpa [opAt, List.getD_eq_getElem?_getD, List.getElem?_eq_getElem hj,
+      List.getElem?_eq_getElem (show i < (eligible seats k).length by omega)] using this
+  rcases select_cases h with ⟨_, a, _, rfl⟩ | ⟨_, _, p, hp, rfl⟩ | ⟨_, t, ht, rfl⟩
+  · simp
+  · have hm := applyPerm_mem (List.mem_of_getElem? hp)
+    have := mem_pairIdx.1 (List.mem_filter.1 hm).1
+    simp only [List.pairwise_cons, List.mem_cons, List.mem_nil_iff, or_false, forall_eq,
+      List.not_mem_nil, false_imp_iff, implies_true, List.Pairwise.nil, and_true]
+    exact key this.1 this.2
+  · have hm := applyPerm_mem (List.mem_of_getElem? ht)
+    have := mem_tripIdx.1 (List.mem_filter.1 hm).1
+    simp only [List.pairwise_cons, List.mem_cons, List.mem_nil_iff, or_false, forall_eq,
+      List.not_mem_nil, false_imp_iff, implies_true, List.Pairwise.nil, and_true, forall_eq_or_imp]
+    exact ⟨⟨key this.1 (by omega), key (by omega) this.2.2⟩, key this.2.1 this.2.2⟩
+
+theorem opAt_inj {ops : List Addr} (hn : ops.Nodup) {i j : Nat} (hi : i < ops.length) (hj : j < ops.length)
+    (h : opAt ops i = opAt ops j) : i = j :=
+  (List.getD_inj hi hj hn).1 h
+
+/-- C09: key generation retries enumerate **distinct** exclusions.  For every real shuffle, two
+    different retry counts that both yield a selection exclude different operator sets (the lists
+    are ascending by `select_excl_sorted`, so different lists are different sets); singles come
+    before pairs before triplets (`select_stage`), each at most once. -/
+theorem exclusions_distinct {shuf : Nat → List Nat} (hv : ValidShuf shuf) {asWas : Bool}
+    {seats : List Addr} {k r1 r2 : Nat} {e1 e2 : List Addr} (hr : r1 ≠ r2)
+    (h1 : select asWas shuf seats r1 k = .excl e1) (h2 : select asWas shuf seats r2 k = .excl e2) :
+    e1 ≠ e2 := by
+  have hops := eligible_nodup seats k
+  rcases select_cases h1 with ⟨_, a1, ha1, rfl⟩ | ⟨hl1, _, p1, hp1, rfl⟩ | ⟨hl1, t1, ht1, rfl⟩ <;>
+  rcases select_cases h2 with ⟨_, a2, ha2, rfl⟩ | ⟨hl2, _, p2, hp2, rfl⟩ | ⟨hl2, t2, ht2, rfl⟩ <;>
+  intro he
+  · have := shuffled_entries_distinct hv hops hr ha1 ha2
+    exact this (List.cons.inj he).1
+  · simpa using congrArg List.length he
+  · simpa using congrArg List.length he
+  · simpa using congrArg List.length he
+  · have hnd : (eligiblePairs seats (eligible seats k) k).Nodup := (pairIdx_nodup _).filter _
+    have hne := shuffled_entries_distinct hv hnd (by omega) hp1 hp2
+    have m1 := mem_pairIdx.1 (List.mem_filter.1 (applyPerm_mem (List.mem_of_getElem? hp1))).1
+    have m2 := mem_pairIdx.1 (List.mem_filter.1 (applyPerm_mem (List.mem_of_getElem? hp2))).1
+    simp only [List.cons.injEq, and_true] at he
+    have e1 := opAt_inj hops (by omega) (by omega) he.1
+    have e2 := opAt_inj hops m1.2 m2.2 he.2
+    exact hne (Prod.ext e1 e2)
+  · simpa using congrArg List.length he
+  · simpa using congrArg List.length he
+  · simpa using congrArg List.length he
+  · have hnd : (eligibleTriplets asWas seats (eligible seats k) k).Nodup := (tripIdx_nodup _).filter _
+    have hne := shuffled_entries_distinct hv hnd (by omega) ht1 ht2
+    have m1 := mem_tripIdx.1 (List.mem_filter.1 (applyPerm_mem (List.mem_of_getElem? ht1))).1
+    have m2 := mem_tripIdx.1 (List.mem_filter.1 (applyPerm_mem (List.mem_of_getElem? ht2))).1
+    simp only [List.cons.injEq, and_true] at he
+    have e1 := opAt_inj hops (by omega) (by omega) he.1
+    have e2 := opAt_inj hops (by omega) (by omega) he.2.1
+    have e3 := opAt_inj hops m1.2.2 m2.2.2 he.2.2
+    exact hne (Prod.ext e1 (Prod.ext e2 e3))
+
 end KeepVerif.C09
